@@ -1027,7 +1027,8 @@ func init() {
 			p.Runs = append(p.Runs, schedRun("realtime-counter-slow-listener-b1", 1, rtl("counter"), 0))
 			p.Runs = append(p.Runs, schedRun("realtime-counter-2-b2", 2, rt(2, "counter", false), 0), schedRun("realtime-list-2-b1", 1, rt(2, "list", true), 0))
 		} else {
-			p.Runs = append(p.Runs, schedRun("realtime-two-datatypes-one-client-b2", 2, rt2k, 0), schedRun("realtime-key-with-slash-b2", 2, rtSlash, 0))
+			p.Runs = append(p.Runs, schedRun("realtime-two-datatypes-one-client-b2", 2, rt2k, 0), schedRun("realtime-key-with-slash-b2", 2, rtSlash, 0),
+				schedRun("realtime-sync-call-next-to-an-operation-b3", 3, rtSync, 0), schedRun("realtime-join-next-to-an-operation-b2", 2, rtJoin, 0))
 			p.Runs = append(p.Runs, schedRun("realtime-counter-slow-listener-b2", 2, rtl("counter"), 0), schedRun("realtime-list-slow-listener-b1", 1, rtl("list"), 0))
 			p.Runs = append(p.Runs, schedRun("realtime-list-2-b2", 2, rt(2, "list", true), 0), schedRun("realtime-counter-3-b2", 2, rt(3, "counter", false), 0))
 			p.Runs = append(p.Runs, schedRun("realtime-counter-2ops-listener-b2", 2, rt2("counter"), 0), schedRun("realtime-counter-2ops-eager-spawn-b2", 2, rt2e("counter"), 0),
